@@ -149,7 +149,7 @@ def main(argv=None):
             fdir = facts.ensure(cfg, args.repo)
             prog = mir.Program(fdir)
             nb = len(prog.product_fns())
-            floor = {'default': 1000, 'wasm': 600, 'allfeatures': 900}[cfg]
+            floor = {'default': 900, 'wasm': 400, 'allfeatures': 800}[cfg]
             cov['configs'].append({'config': cfg, 'bodies': nb, 'crates': prog.crates(), 'fact_files': prog.files})
             cov['bodies_analysed'] += nb
             rep, mod = run_property(pid, prog, cfg, args.tier)
